@@ -23,6 +23,9 @@ package transaction
 //@ spec rollbackIndexOf(t *configapi.Transaction) int = asType(t.Details, "*configapi.Transaction_Rollback").Rollback.RollbackIndex
 //@ spec quietSoFar() bool = txnStatusWrites == old(txnStatusWrites) && proposalStatusWrites == old(proposalStatusWrites) && propNewCommit == old(propNewCommit) && propNewApply == old(propNewApply) && propNewAbort == old(propNewAbort) && propNewValidate == old(propNewValidate) && noConfigOrDeviceEffect()
 
+// every target of the change has its proposal in the list (the later phases wait for the listed proposals only)
+//@ spec listsEveryTarget(ps []configapi.ProposalID, values map[configapi.TargetID]*configapi.PathValues, index int) bool = forall t string :: (t in values) ==> (exists j int :: 0 <= j && j < len(ps) && ps[j] == propIDOf(t, index))
+
 //@ func (*Reconciler).reconcileInitialize
 //@   props C01, C02, C06, C07
 //@   requires r != nil && txnReady(transaction) && transaction.Status.Phases.Initialize != nil && transaction.Status.Phases.Validate == nil && transaction.Status.Phases.Commit == nil && transaction.Status.Phases.Apply == nil && transaction.Status.Phases.Abort == nil && nothingSeen() && noneFound()
@@ -30,12 +33,14 @@ package transaction
 //@   ensures {C06} refused-rollback-fails: transaction.Status.State == configapi.TransactionStatus_FAILED && old(transaction.Status.State) != configapi.TransactionStatus_FAILED ==> isRollbackTxn(transaction) && !txnIsChange[rollbackIndexOf(transaction)] && transaction.Status.Failure != nil && (transaction.Status.Failure.Type == configapi.Failure_NOT_FOUND || transaction.Status.Failure.Type == configapi.Failure_FORBIDDEN) && transaction.Status.Phases.Abort != nil && tInitState(transaction) == configapi.TransactionInitializePhase_FAILED && proposalCreates == old(proposalCreates)
 //@   ensures {C06} missing-rollback-target-refused: old(tInitState(transaction)) == configapi.TransactionInitializePhase_INITIALIZING && old(arrOf(transaction.Status.Proposals)) == 0 && isRollbackTxn(transaction) && err == nil && (!txnFound[transaction.Index - 1] || txnInitDone[transaction.Index - 1]) && !txnIsChange[rollbackIndexOf(transaction)] ==> transaction.Status.State == configapi.TransactionStatus_FAILED
 //@   ensures {C02} init-in-index-order: proposalCreates > old(proposalCreates) || (old(arrOf(transaction.Status.Proposals)) == 0 && arrOf(transaction.Status.Proposals) != 0) ==> old(tInitState(transaction)) == configapi.TransactionInitializePhase_INITIALIZING && (!txnFound[transaction.Index - 1] || txnInitDone[transaction.Index - 1])
+//@   ensures {C01,C07} proposal-list-names-every-target: old(arrOf(transaction.Status.Proposals)) == 0 && txnStatusWrites > old(txnStatusWrites) && tInitState(transaction) == configapi.TransactionInitializePhase_INITIALIZING && isType(transaction.Details, "*configapi.Transaction_Change") ==> listsEveryTarget(transaction.Status.Proposals, asType(transaction.Details, "*configapi.Transaction_Change").Change.Values, transaction.Index)
 //@   ensures {C07} create-idempotent: proposalCreates > old(proposalCreates) && lastCreateExisted ==> err == nil && transaction.Status.State == old(transaction.Status.State)
 //@   ensures {C01,C02} initialized-needs-all: tInitState(transaction) == configapi.TransactionInitializePhase_INITIALIZED && old(tInitState(transaction)) == configapi.TransactionInitializePhase_INITIALIZING ==> allSeen(transaction, seenInitialized)
 //@   ensures {C01,C02} validate-phase-only-after-init: transaction.Status.Phases.Validate != nil ==> old(tInitState(transaction)) == configapi.TransactionInitializePhase_INITIALIZED
 //@   ensures {C01} init-starts-no-phase: propNewValidate == old(propNewValidate) && propNewCommit == old(propNewCommit) && propNewApply == old(propNewApply) && propNewAbort == old(propNewAbort) && proposalStatusWrites == old(proposalStatusWrites)
 //@   ensures {C01} txn-touches-no-config: noConfigOrDeviceEffect()
 //@   loop 1 invariant quietSoFar() && (proposalCreates > old(proposalCreates) ==> !lastCreateExisted) && proposalCreates >= old(proposalCreates)
+//@   loop 1 invariant forall t string :: visited(1)[t] ==> (exists j int :: 0 <= j && j < len(proposals) && proposals[j] == propIDOf(t, transaction.Index))
 //@   loop 2 invariant quietSoFar() && (proposalCreates > old(proposalCreates) ==> !lastCreateExisted) && proposalCreates >= old(proposalCreates)
 //@   loop 3 invariant quietSoFar() && (proposalCreates > old(proposalCreates) ==> !lastCreateExisted) && proposalCreates >= old(proposalCreates)
 //@   loop 4 invariant 0 - 1 <= rangeindex && quietSoFar() && proposalCreates == old(proposalCreates)
